@@ -15,6 +15,30 @@ from .stmt import StmtMixin, FALL, NestedFunc, _hdr
 from . import source
 
 
+def _mentions(e, c):
+    seen = set()
+    stack = [e]
+    cid = c.get_id()
+    while stack:
+        x = stack.pop()
+        if x.get_id() == cid:
+            return True
+        if x.get_id() in seen:
+            continue
+        seen.add(x.get_id())
+        if z3.is_quantifier(x):
+            stack.append(x.body())
+        else:
+            stack.extend(x.children())
+    return False
+
+
+class _LoopFrame(object):
+    """the part of a contract that havoc() consults, for a loop specification with a `modifies` frame"""
+    def __init__(self, allocates):
+        self.allocates = allocates or False
+
+
 class Contract(object):
     def __init__(self, key, sig=None, returns=None, requires=(), ensures=(), raises=None, modifies=None,
                  loops=None, inline=False, interface=False, pure=False, self_type=None, closure=None,
@@ -233,6 +257,9 @@ class Verifier(ExprMixin, CallMixin, BuiltinMixin, StmtMixin, Executor):
                 raise OutOfReach('old() outside a postcondition')
             st0 = pre.copy()
             st0.locals = dict(st.locals)
+            if pre.ghost.get('loop_entry'):
+                # loop invariant: old(x) of a local reassigned in the loop is its value at loop entry
+                st0.locals.update(pre.locals)
             return self.sev(node.args[0], st0)
         if name in ('all', 'any') and len(node.args) == 1 and isinstance(node.args[0], ast.GeneratorExp):
             return self.sev_quant(name, node.args[0], st)
@@ -277,10 +304,20 @@ class Verifier(ExprMixin, CallMixin, BuiltinMixin, StmtMixin, Executor):
         i = fresh(g.target.id, IntS)
         st1 = st.set(g.target.id, SV(i, INT))
         rng = z3.And(self.term(lo, 'I') <= i, i < self.term(hi, 'I'))
+        nfacts = len(self.spec_facts) if getattr(self, 'spec_facts', None) is not None else None
         guards = [self.truth(st1, self.sev(c, st1)) for c in g.ifs]
         body = self.truth(st1, self.sev(gen.elt, st1))
         body = body if not isinstance(body, bool) else z3.BoolVal(body)
         g_all = self.and_([rng] + guards)
+        if nfacts is not None:
+            # definitional / typing facts produced while evaluating the body that mention the bound variable hold for
+            # every value in the range: they are kept as universally quantified hypotheses
+            inner = self.spec_facts[nfacts:]
+            dep = [f for f in inner if _mentions(f, i)]
+            if dep:
+                del self.spec_facts[nfacts:]
+                self.spec_facts.extend(f for f in inner if not _mentions(f, i))
+                self.spec_facts.append(z3.ForAll([i], z3.Implies(rng, z3.And(*dep))))
         if which == 'all':
             return SV(z3.ForAll([i], z3.Implies(g_all, body)), BOOL)
         return SV(z3.Exists([i], z3.And(g_all, body)), BOOL)
@@ -771,6 +808,14 @@ class Verifier(ExprMixin, CallMixin, BuiltinMixin, StmtMixin, Executor):
                 st1, v = self.fresh_param_heap(st1, fresh_name('lv.' + n), ty)
                 st1.locals[n] = v
             # names first assigned inside the loop are simply unbound before
+        if spec.get('modifies') is not None:
+            # loop frame: only the named locations (evaluated at loop entry) and fresh objects may change; the frame is
+            # an obligation of every iteration (cut_loop emits it), so the havoc may rely on it
+            pseudo = _LoopFrame(spec.get('allocates'))
+            st2 = self.havoc(st1, pseudo, self.inv_env(st, {}), list(spec['modifies']))
+            if st2 is st1:
+                st2 = st1.copy()
+            return st2
         heapkeys = spec.get('heap')
         if heapkeys is None:
             heapkeys = [k for k in st1.heap if k != 'cls']
@@ -846,6 +891,10 @@ class Verifier(ExprMixin, CallMixin, BuiltinMixin, StmtMixin, Executor):
                 for st2, out2 in self.exec_block(s.body, stb1, fr):
                     if out2[0] in ('fall', 'continue'):
                         env2 = self.inv_env(st2, {'_i': SV(i + 1, INT), '_n': SV(n, INT)})
+                        if spec.get('modifies') is not None:
+                            self._loop_frame_n = getattr(self, '_loop_frame_n', 0) + 1
+                            self.emit_frame_vcs(c, st2, st, self.inv_env(st, {}), self._loop_frame_n, 'loop%d' % ordinal,
+                                                mods=list(spec['modifies']))
                         for name, e in invs:
                             self.vcs.append(VC('%s#loop%d.preserve.%s@%s' % (c.key, ordinal, name, fresh_name('p')), st2.pc,
                                                self.spec_bool(e, st2, env2, self.loop_pre(st), as_goal=True), 'loop_preserve',
@@ -863,7 +912,10 @@ class Verifier(ExprMixin, CallMixin, BuiltinMixin, StmtMixin, Executor):
                 yield r
 
     def loop_pre(self, st):
-        return getattr(self, '_fn_pre', None) or st
+        p = st.copy()
+        p.ghost = dict(p.ghost)
+        p.ghost['loop_entry'] = True
+        return p
 
     def iter_protocol(self, st, seq, fr):
         from .expr import EnumV, RangeV
@@ -924,6 +976,10 @@ class Verifier(ExprMixin, CallMixin, BuiltinMixin, StmtMixin, Executor):
                         for st4, out in self.exec_block(s.body, st3, fr):
                             if out[0] in ('fall', 'continue'):
                                 env4 = self.inv_env(st4, {})
+                                if spec.get('modifies') is not None:
+                                    self._loop_frame_n = getattr(self, '_loop_frame_n', 0) + 1
+                                    self.emit_frame_vcs(c, st4, st, self.inv_env(st, {}), self._loop_frame_n, 'loop%d' % ordinal,
+                                                        mods=list(spec['modifies']))
                                 for name, e in invs:
                                     self.vcs.append(VC('%s#loop%d.preserve.%s@%s' % (c.key, ordinal, name, fresh_name('p')),
                                                        st4.pc, self.spec_bool(e, st4, env4, self.loop_pre(st), as_goal=True),
